@@ -366,7 +366,7 @@ func init() {
 			if tier == "thorough" {
 				return 8000
 			}
-			return 320
+			return 800
 		},
 		Run:         c12Run,
 		MustProbe:   []string{"processor_ca_world", "tcb_url_checked", "pckcrl_url_checked_platform", "pckcrl_url_checked_processor", "shared_options_history", "expiry_between_calls_under_default_time"},
